@@ -26,5 +26,16 @@ def run(ctx):
 
     def nt(b):
         return any(s["a"] == "ReplacePolicy" and s["st"]["adjin"] for s in b[1:])
+    # export side: RibOut over all export policies (same invariant: Adj-RIB-Out = ExportView under the CURRENT policy)
+    ro_spec = importlib.util.spec_from_file_location("ro", os.path.join(os.path.dirname(__file__), "ribout_common.py"))
+    ro = importlib.util.module_from_spec(ro_spec); ro_spec.loader.exec_module(ro)
+    epols = {"accept", "rejall", "rej01", "setmed", "prep", "prep2", "setnh"}
+    eb = {"Names": {"e1", "i1", "st"}, "Sessions": {"ebgp", "ibgpRR", "ebgpAP"}, "Pols": epols, "MaxDepth": 4 if not big else 5, "MaxPaths": 3}
+    ro.ribout_runs(ctx, [("design export", dict(eb, MaxDepth=99, Pols={"accept", "rej01", "prep", "prep2"}), ro.PFX1)],
+                   [("gen export pairs", eb, ro.PFX2)],
+                   [("sim export", dict(eb, Names={"e1", "e2", "e3", "i1", "st"}, Sessions=ro.ALLSESS - {"ibgp"}), ro.PFX2, 2000 if big else 300, 12)],
+                   ("v4o8", "v6o60") if not big else ("v4o0", "v4o28", "v6o30", "v6o124"),
+                   lambda b: any(s["a"] == "ReplaceExport" and any(e["paths"] for e in s["st"]["rib"]) for s in b[1:]),
+                   40000 if big else 4000)
     rc.ribin_runs(ctx, runs, sims, ("v4o8", "v6o60") if not big else ("v4o0", "v4o28", "v6o30", "v6o124"), nt,
                   40000 if big else 4000)
